@@ -43,3 +43,169 @@ impl PRule {
         self.f.verif_tag()
     }
 }
+
+// ---------------------------------------------------------------------------------------------
+// dumps for the line protocol (see lean/Driver/Parse.lean)
+
+use crate::util::{hex, hex_list, opt_hex};
+use adblock::filters::network::FilterPart;
+use adblock::resources::{MimeType, Resource, ResourceType};
+
+fn opt_hashes(o: &Option<Vec<u64>>) -> String {
+    match o {
+        None => "-".into(),
+        Some(v) => format!("+{}", v.iter().map(|x| x.to_string()).collect::<Vec<_>>().join(",")),
+    }
+}
+fn opt_hash(o: &Option<u64>) -> String {
+    match o {
+        None => "-".into(),
+        Some(v) => format!("+{}", v),
+    }
+}
+
+pub fn dump_rule(f: &NetworkFilter, rx: bool) -> String {
+    let fp = match &f.filter {
+        FilterPart::Empty => "E".to_string(),
+        FilterPart::Simple(s) => format!("S{}", hex(s)),
+        FilterPart::AnyOf(v) => format!("A{}", v.iter().map(|s| hex(s)).collect::<Vec<_>>().join(",")),
+    };
+    format!(
+        "{};{};{};{};{};{};{};{};{};{};{}",
+        f.mask.bits(),
+        fp,
+        opt_hex(f.hostname.as_deref()),
+        opt_hashes(&f.opt_domains),
+        opt_hashes(&f.opt_not_domains),
+        opt_hash(&f.opt_domains_union),
+        opt_hash(&f.opt_not_domains_union),
+        opt_hex(f.modifier_option.as_deref()),
+        opt_hex(f.verif_tag()),
+        f.id,
+        if rx { 1 } else { 0 }
+    )
+}
+
+/// For a complete-regex rule: what the `regex` crate answers on the request (external parameter
+/// of the model).
+pub fn rx_hint(f: &NetworkFilter, req: &Request) -> bool {
+    if !f.mask.contains(NetworkFilterMask::IS_COMPLETE_REGEX) {
+        return false;
+    }
+    let mut rm = RegexManager::default();
+    let mut mask = f.mask;
+    mask.remove(NetworkFilterMask::IS_HOSTNAME_ANCHOR);
+    adblock::filters::verif::check_pattern(mask, f.filter.iter(), None, 1, req, &mut rm)
+}
+
+pub struct Req {
+    pub req: Request,
+    pub dump: String,
+    pub url: String,
+    pub src: String,
+    pub ty: String,
+}
+
+/// Builds the request through the public constructor and dumps the parts the model's
+/// `mkRequest` (= `from_detailed_parameters`) takes as input.
+pub fn make_req(url: &str, src: &str, ty: &str) -> Option<Req> {
+    let req = Request::new(url, src, ty).ok()?;
+    let pu = adblock::url_parser::parse_url(url)?;
+    let ps = adblock::url_parser::parse_url(src);
+    let (src_host, third) = match &ps {
+        Some(s) => (s.hostname().to_string(), s.domain() != pu.domain()),
+        None => (String::new(), true),
+    };
+    let dump = format!(
+        "{};{};{};{};{};{};{}",
+        hex(ty),
+        hex(&pu.url),
+        hex(pu.schema()),
+        hex(pu.hostname()),
+        hex(&src_host),
+        if third { 1 } else { 0 },
+        hex(url)
+    );
+    Some(Req { req, dump, url: url.to_string(), src: src.to_string(), ty: ty.to_string() })
+}
+
+pub fn kind_name(k: &ResourceType) -> String {
+    match k {
+        ResourceType::Template => "Template".to_string(),
+        ResourceType::Mime(m) => format!("Mime(MimeType::{:?})", m),
+    }
+}
+pub fn mime_str(k: &ResourceType) -> String {
+    match k {
+        ResourceType::Template => String::new(),
+        ResourceType::Mime(m) => {
+            let s: &str = m.into();
+            s.to_string()
+        }
+    }
+}
+
+/// The attempted `add_resource` calls in order (the model decides which are accepted).
+pub fn dump_store(rs: &[Resource]) -> String {
+    if rs.is_empty() {
+        return ".".into();
+    }
+    rs.iter()
+        .map(|r| {
+            format!(
+                "{};{};{};{};{};{};{}",
+                hex(&r.name),
+                hex_list(&r.aliases),
+                hex(&kind_name(&r.kind)),
+                hex(&mime_str(&r.kind)),
+                hex(&r.content),
+                perm_bits(r),
+                hex_list(&r.dependencies)
+            )
+        })
+        .collect::<Vec<_>>()
+        .join("|")
+}
+
+pub fn perm_bits(r: &Resource) -> u8 {
+    // PermissionMask is #[serde(transparent)] over u8
+    serde_json::to_value(&r.permission).ok().and_then(|v| v.as_u64()).unwrap_or(0) as u8
+}
+
+pub fn mk_resource(name: &str, aliases: &[&str], kind: ResourceType, content: &str, perm: u8) -> Resource {
+    use base64::{engine::Engine as _, prelude::BASE64_STANDARD};
+    Resource {
+        name: name.to_string(),
+        aliases: aliases.iter().map(|s| s.to_string()).collect(),
+        kind,
+        content: BASE64_STANDARD.encode(content),
+        dependencies: vec![],
+        permission: adblock::resources::PermissionMask::from_bits(perm),
+    }
+}
+
+pub fn show_verdict(r: &adblock::blocker::BlockerResult) -> String {
+    format!(
+        "{},{},{},{},{}",
+        r.matched as u8,
+        r.important as u8,
+        r.exception.is_some() as u8,
+        opt_hex(r.redirect.as_deref()),
+        opt_hex(r.rewritten_url.as_deref())
+    )
+}
+
+pub fn show_csp(c: &Option<String>) -> String {
+    match c {
+        None => "-".into(),
+        Some(s) => {
+            let mut v: Vec<String> = s.split(',').map(|d| hex(d)).collect();
+            v.sort();
+            v.dedup();
+            format!("+{}", v.join(","))
+        }
+    }
+}
+
+#[allow(dead_code)]
+pub fn _unused(_: MimeType) {}
